@@ -22,12 +22,60 @@ pub fn opt_part(o: &Opt) -> String {
 /// Deterministic: depends only on the minimal case.
 pub fn signature(min: &Minimal) -> String {
     let t = tygen::shape_trigger(&min.ty, &min.v);
+    // byte buffers: a `!!binary` scalar whose payload is not UTF-8 cannot be read through
+    // `deserialize_any` / `IgnoredAny` (it is delivered as a string)
+    if tygen::any_node(&min.ty, &min.v, &|t, _| matches!(t, vcore::ty::Ty::Bytes)) {
+        let rt = tygen::roundtrip(&min.ty, &min.v, &min.o);
+        let empty_in_option = tygen::any_node(&min.ty, &min.v, &|t, x| {
+            matches!((t, x), (vcore::ty::Ty::Option(i), vcore::ty::TVal::Some(b)) if matches!(i.peel_newtypes(), vcore::ty::Ty::Bytes) && matches!(&**b, vcore::ty::TVal::Bytes(p) if p.is_empty()))
+        });
+        if empty_in_option && matches!(rt.fail, Some(tygen::Stage::Mismatch(_))) {
+            return "C13:bytes:empty-buffer-in-option-reads-back-as-none".into();
+        }
+        return match rt.fail {
+            Some(tygen::Stage::MultiErr(m)) if m.contains("!!binary scalar is not valid UTF-8") => "C13:bytes:non-utf8-binary-scalar-unreadable-through-deserialize_any".into(),
+            Some(st) => format!("C13:bytes:{}:{}", st.kind(), opt_part(&min.o)),
+            None => format!("C13:bytes:{}", opt_part(&min.o)),
+        };
+    }
     // a unit variant written as a folded block scalar (name longer than folded_wrap_chars)
     if min.o.folded_wrap_chars != Opt::default().folded_wrap_chars
         && !matches!(t.as_str(), "tuple-struct" | "tuple-variant")
         && tygen::any_node(&min.ty, &min.v, &|t, x| tygen::kind(t, x) == "unit-variant")
     {
         return "C13:unit-variant:emitted-as-folded-block-scalar".into();
+    }
+    // a mapping used as a key whose only entry has an empty-string / null key is read back empty
+    let single_empty_key_map_as_key = tygen::any_node(&min.ty, &min.v, &|_, x| match x {
+        vcore::ty::TVal::Map(ps) => ps.iter().any(|(k, _)| {
+            matches!(k, vcore::ty::TVal::Map(inner) if inner.len() == 1
+                && matches!(&inner[0].0, vcore::ty::TVal::Str(s) if s.is_empty()) | matches!(&inner[0].0, vcore::ty::TVal::None | vcore::ty::TVal::Unit))
+        }),
+        _ => false,
+    });
+    if single_empty_key_map_as_key {
+        return "C13:mapping-as-key:single-entry-with-empty-or-null-key-reads-back-empty".into();
+    }
+    // `Some(empty collection)` used as a mapping key
+    let opt_empty_key = tygen::any_node(&min.ty, &min.v, &|_, x| match x {
+        vcore::ty::TVal::Map(ps) => ps.iter().any(|(k, _)| match k {
+            vcore::ty::TVal::Some(b) => matches!(&**b, vcore::ty::TVal::Map(m) if m.is_empty()) || matches!(&**b, vcore::ty::TVal::Seq(q) if q.is_empty()),
+            _ => false,
+        }),
+        _ => false,
+    });
+    if opt_empty_key {
+        return "C13:complex-key:optional-empty-collection-as-key-reads-back-as-none".into();
+    }
+    // an enum variant with a payload used as a mapping key
+    let mut variant_key: Option<&'static str> = None;
+    tygen::contexts(&min.ty, &min.v, &mut |_, pos, c| {
+        if pos == "key" && matches!(c, "struct-variant" | "newtype-variant" | "tuple-variant") && variant_key.is_none() {
+            variant_key = Some(c);
+        }
+    });
+    if let Some(k) = variant_key {
+        return format!("C13:complex-key:{k}-as-key:{}", opt_part(&min.o));
     }
     match t.as_str() {
         // classes defined by the shape alone (whatever options happen to be needed as well)
